@@ -121,6 +121,9 @@ func judgeReplay(kind, res string) (string, bool) {
 			msg := res[i:]
 			for _, k := range panicKinds[kind] {
 				if strings.Contains(msg, k) {
+					if kind == "rte.nil" && strings.Contains(res, "REPLAY-NOTE: heap-shaped input built as an empty object") {
+						return "real code dereferences nil, but on an input object that was built empty (heap-shaped counterexample; not counted as a reproduction): " + short, false
+					}
 					return "real code panics on the counterexample: " + short, true
 				}
 			}
@@ -135,7 +138,9 @@ func judgeReplay(kind, res string) (string, bool) {
 		return "real code satisfies the clause on the constructed input (counterexample relies on abstracted state): " + short, false
 	}
 	if strings.Contains(res, "REPLAY-PANIC:") {
-		return "real code panics on the counterexample: " + short, strings.HasPrefix(kind, "post.")
+		// a panic is not evidence against a postcondition: the constructed inputs may violate invariants of
+		// their types that the model does not show (e.g. a Config without its fields object)
+		return "real code panicked on the constructed input before the clause could be evaluated (not counted as a reproduction): " + short, false
 	}
 	return "replay ran but the clause is not executable in Go: " + short, false
 }
@@ -249,6 +254,7 @@ func buildReplayTest(e *Engine, v *fnVC, vals []string, o *Obl) (string, bool) {
 	imports := map[string]bool{"fmt": true, "math": true, "testing": true}
 	var decl []string
 	var args []string
+	emptyHeap := false
 	for _, p := range fn.Params {
 		pt := p.Type()
 		fields := byParam[p.Name()]
@@ -272,6 +278,9 @@ func buildReplayTest(e *Engine, v *fnVC, vals []string, o *Obl) (string, bool) {
 					}
 				}
 				init = fmt.Sprintf("&%s{%s}", types.TypeString(u.Elem(), qual), strings.Join(fs, ", "))
+				if hasRefField(st, 0) {
+					emptyHeap = true
+				}
 			} else if fv := fields[""]; fv != nil && strings.TrimSpace(fv.val) == "0" {
 				init = "nil"
 			} else if _, ok := u.Elem().Underlying().(*types.Struct); ok {
@@ -343,6 +352,10 @@ func buildReplayTest(e *Engine, v *fnVC, vals []string, o *Obl) (string, bool) {
 		}
 		if init == "" {
 			init = fmt.Sprintf("*new(%s)", tstr)
+			emptyHeap = true
+		}
+		if strings.HasSuffix(init, "{}") && strings.HasPrefix(init, "&") {
+			emptyHeap = true
 		}
 		decl = append(decl, fmt.Sprintf("\tvar %s %s = %s", name, tstr, init))
 		args = append(args, name)
@@ -433,6 +446,9 @@ func buildReplayTest(e *Engine, v *fnVC, vals []string, o *Obl) (string, bool) {
 	fmt.Fprintf(&sb, "// replay of obligation %s\n// clause: %s\n// at %s\nfunc TestVerifReplay(t *testing.T) {\n", o.Name, strings.ReplaceAll(o.Text, "\n", " "), relPos(o.Pos, e.repo))
 	sb.WriteString("\tdefer func() {\n\t\tif r := recover(); r != nil {\n\t\t\tfmt.Printf(\"REPLAY-PANIC: %v\\n\", r)\n\t\t}\n\t}()\n")
 	sb.WriteString(strings.Join(decl, "\n") + "\n")
+	if emptyHeap {
+		sb.WriteString("\tfmt.Println(\"REPLAY-NOTE: heap-shaped input built as an empty object\")\n")
+	}
 	for i, a := range args {
 		fmt.Fprintf(&sb, "\tfmt.Printf(\"REPLAY-INPUT: %s = %%#v\\n\", %s)\n", fn.Params[i].Name(), strings.TrimSuffix(a, "..."))
 	}
@@ -552,3 +568,18 @@ func splitSexp(s string) []string {
 }
 
 var _ = ssa.NaiveForm
+
+// hasRefField: the struct (transitively, by value) contains a field the replay cannot fill from a model.
+func hasRefField(st *types.Struct, depth int) bool {
+	for i := 0; i < st.NumFields() && depth < 4; i++ {
+		switch u := st.Field(i).Type().Underlying().(type) {
+		case *types.Pointer, *types.Interface, *types.Map, *types.Slice, *types.Chan, *types.Signature:
+			return true
+		case *types.Struct:
+			if hasRefField(u, depth+1) {
+				return true
+			}
+		}
+	}
+	return false
+}
